@@ -57,15 +57,11 @@ def parse_label_attr(rest: str):
         raw = "".join(raw)
         return {raw, raw.replace('\\"', '"')}
     if rest.startswith("<"):
-        depth = 0
-        for i, ch in enumerate(rest):
-            if ch == "<":
-                depth += 1
-            elif ch == ">":
-                depth -= 1
-                if depth == 0:
-                    return {rest[: i + 1]}
-        return {rest}
+        # an HTML-like string: graphviz writes any text of the form <...> unquoted, whatever is in between
+        # (a function type printed as "<a>, b -> c<d>" contains several '>'): every prefix ending in '>' is a
+        # candidate reading
+        cands = {rest[: i + 1] for i, ch in enumerate(rest) if ch == ">"}
+        return set(sorted(cands, key=len)[:60]) or {rest}
     return {rest.split(" ", 1)[0]}
 
 
